@@ -254,10 +254,14 @@ AKL(i, j) ==
                        [ln |-> MkSeq(Max(R1, R2), LAMBDA k :
                                   KLSem(p, IF R1 = 1 THEN 1 ELSE k, q, IF R2 = 1 THEN 1 ELSE k))]))
 
-AUpdate(i, idx, j) ==
-    LET p == heap[i] q == heap[j] p1 == Update(p, idx, q) IN
+\* neg: the positions of idx that are passed to the code as negative (from-the-end) indices
+AUpdateN(i, idx, j, neg) ==
+    LET p == heap[i] q == heap[j] p1 == Update(p, idx, q)
+        idx0 == [k \in 1..Len(idx) |-> IF k \in neg THEN idx[k] - 1 - NumR(p) ELSE idx[k] - 1]
+    IN
     /\ IsPdf(p) /\ IsPdf(q) /\ NumD(p) = NumD(q) /\ Len(idx) = NumR(q)
-    /\ Emit(Put(i, p1), Step("Update", [i |-> i, idx |-> Minus1(idx), j |-> j], NoObj, 0, NoObj, i, ExpectObj(p1), NoObj))
+    /\ Emit(Put(i, p1), Step("Update", [i |-> i, idx |-> idx0, j |-> j], NoObj, 0, NoObj, i, ExpectObj(p1), NoObj))
+AUpdate(i, idx, j) == AUpdateN(i, idx, j, {})
 
 AConditionOn(i, dy) ==
     LET p == heap[i] c == ConditionOn(p, dy) IN
@@ -859,6 +863,32 @@ Inv_Pointwise ==
                      LNEq(EvalLn(res, k, x),
                           LNAdd(EvalLn(u, IF R1 = 1 THEN 1 ELSE k, x), EvalLn(f, IF R2 = 1 THEN 1 ELSE k, x)))
 
+\* ------------------------------------------------------------------------
+\* Frame condition (an ACTION property, checked on every transition): a step changes only what it declares.
+\*  - every object other than the declared in-place target still denotes the same function afterwards (cache-filling
+\*    queries may set cache fields of a measure, never its function); non-measure objects are unchanged as records;
+\*  - update(idx, d) leaves the components it does not address unchanged, with all their cached fields
+\*    (C12: "replaces exactly the addressed components"; C01: "the operands are left unchanged").
+\* The replay binds it to the code: after every call each operand is compared with the specification's record.
+\* ------------------------------------------------------------------------
+SameObj(a, b) == IF a.cls \in MeasureClasses THEN a.cls = b.cls /\ SemEq(a, b) ELSE a = b
+SameComp(a, b, r) ==
+    /\ MEq(a.Lam[r], b.Lam[r]) /\ VEq(a.nu[r], b.nu[r]) /\ LNEq(a.lnb[r], b.lnb[r])
+    /\ MEq(a.Sig[r], b.Sig[r]) /\ FEq(a.dSig[r], b.dSig[r]) /\ VEq(a.mu[r], b.mu[r]) /\ LNEq(a.lnZ[r], b.lnZ[r])
+FrameStep ==
+    hist' # hist =>
+      LET st == hist'[Len(hist')] IN
+      /\ Len(heap') >= Len(heap)
+      /\ \A id \in 1..Len(heap) :
+           IF st.mid = id /\ st.act \in {"Normalize", "UpdateSigma"} THEN TRUE      \* Inv_Normalize / Inv_UpdateSigma
+           ELSE IF st.mid = id /\ st.act = "Update"
+           THEN LET R == NumR(heap[id])
+                    addressed == {(IF st.a.idx[k] < 0 THEN st.a.idx[k] + R ELSE st.a.idx[k]) + 1 : k \in 1..Len(st.a.idx)}
+                IN /\ NumR(heap'[id]) = R
+                   /\ \A r \in (1..R) \ addressed : SameComp(heap'[id], heap[id], r)
+           ELSE SameObj(heap'[id], heap[id])
+Prop_Frame == [][FrameStep]_vars
+
 \* C02: normalize() divides by the mass
 Inv_Normalize ==
     (hist # <<>> /\ Last.act = "Normalize") =>
@@ -942,7 +972,8 @@ Inv_EntropyKL ==
 \* C12: update replaces exactly the addressed components, all fields consistently
 Inv_Update ==
     IsAct("Update") =>
-      LET p == heap[Last.a.i] q == heap[Last.a.j] idx == Plus1(Last.a.idx) IN
+      LET p == heap[Last.a.i] q == heap[Last.a.j]
+          idx == [k \in 1..Len(Last.a.idx) |-> (IF Last.a.idx[k] < 0 THEN Last.a.idx[k] + NumR(p) ELSE Last.a.idx[k]) + 1] IN
       /\ CacheCoherent(p) /\ IsNormalised(p)
       /\ \A k \in 1..Len(idx) : SemEq(Slice(p, <<idx[k]>>), Slice(q, <<k>>))
 
